@@ -306,6 +306,11 @@ class World:
     def find_fn(self, pretty):
         return self.by_pretty.get(pretty)
 
+    def fn_named(self, name):
+        """a function by its pretty path or by its definition key (a closure value carries the key: inside an `impl`
+        the two differ - `Type::method::{closure#0}` vs `{impl#0}::method::{closure#0}`)"""
+        return self.by_pretty.get(name) or self.fns.get(name)
+
     def crate_fns(self, crate):
         return [f for f in self.fns.values() if f.crate == crate]
 
